@@ -435,4 +435,87 @@ theorem runSubgraphs_bad (env : Env) (cbs : Callbacks) :
       simp only at this
       rw [this]
 
+/-! ## Freshness of the argument Vars -/
+
+/-- Invariant of the invocation log (newest event first): every argument of a newer invocation is
+    larger than every argument of an older one, the arguments of one invocation are pairwise
+    distinct, and all of them are below the fresh-id counter. -/
+def Fresh (w : World) : Prop :=
+  List.Pairwise (fun e e' : Event => ∀ a ∈ e.args, ∀ b ∈ e'.args, b < a) w.events
+    ∧ ∀ e ∈ w.events, (∀ a ∈ e.args, a < w.fresh)
+        ∧ ∀ (i j : Nat) (hi : i < e.args.length) (hj : j < e.args.length), e.args[i] = e.args[j] → i = j
+
+theorem mem_freshIds {s n a : Nat} : a ∈ freshIds s n ↔ s ≤ a ∧ a < s + n := by
+  simp only [freshIds, List.mem_map, List.mem_range]
+  constructor
+  · rintro ⟨i, hi, rfl⟩; omega
+  · intro ⟨h1, h2⟩; exact ⟨a - s, by omega, by omega⟩
+
+theorem freshIds_inj (s n i j : Nat) (hi : i < (freshIds s n).length) (hj : j < (freshIds s n).length)
+    (h : (freshIds s n)[i] = (freshIds s n)[j]) : i = j := by
+  simp [freshIds] at h
+  omega
+
+theorem fresh_init : Fresh ⟨[], 0⟩ := by simp [Fresh]
+
+theorem subgraphCall_fresh (types : List Ty) (cb : Nat) (beh : CbBehaviour) (w : World)
+    (hw : Fresh w) : Fresh (subgraphCall types cb beh w).2 := by
+  obtain ⟨hp, ha⟩ := hw
+  have hold : ∀ e ∈ w.events, (∀ a ∈ e.args, a < w.fresh + types.length)
+      ∧ ∀ (i j : Nat) (hi : i < e.args.length) (hj : j < e.args.length), e.args[i] = e.args[j] → i = j :=
+    fun e he => ⟨fun a h => by have := (ha e he).1 a h; omega, (ha e he).2⟩
+  have hnew : Fresh ⟨⟨cb, freshIds w.fresh types.length, types⟩ :: w.events, w.fresh + types.length⟩ := by
+    refine ⟨List.pairwise_cons.2 ⟨?_, hp⟩, ?_⟩
+    · intro e' he' a haa b hb
+      have h1 := (ha e' he').1 b hb
+      have h2 := (mem_freshIds.1 haa).1
+      omega
+    · intro e he
+      simp only [List.mem_cons] at he
+      rcases he with rfl | he
+      · exact ⟨fun a h => (mem_freshIds.1 h).2, fun i j hi hj h => freshIds_inj _ _ i j hi hj h⟩
+      · exact hold e he
+  unfold subgraphCall
+  cases beh.callable
+  · exact ⟨hp, hold⟩
+  · simp only [if_true]
+    cases beh.result <;> exact hnew
+
+theorem runSubgraphs_fresh (env : Env) (cbs : Callbacks) :
+    ∀ (subs : List (String × ListExpr)) (w : World), Fresh w → Fresh (runSubgraphs env cbs subs w).2 := by
+  intro subs
+  induction subs with
+  | nil => intro w hw; exact hw
+  | cons p rest ih =>
+    intro w hw
+    obtain ⟨nm, e⟩ := p
+    simp only [runSubgraphs]
+    cases he : evalList env e with
+    | error err => exact hw
+    | ok types =>
+      simp only
+      have h1 := subgraphCall_fresh types (cbs nm).1 (cbs nm).2 w hw
+      generalize subgraphCall types (cbs nm).1 (cbs nm).2 w = r at h1
+      obtain ⟨res, w1⟩ := r
+      cases res with
+      | error err => exact h1
+      | ok g =>
+        simp only
+        have h2 := ih w1 h1
+        generalize runSubgraphs env cbs rest w1 = r2 at h2
+        obtain ⟨res2, w2⟩ := r2
+        cases res2 <;> exact h2
+
+theorem construct_fresh (spec : CtorSpec) (env : Env) (cbs : Callbacks) (w : World) (hw : Fresh w) :
+    Fresh (construct spec env cbs w).2 := by
+  have := runSubgraphs_fresh env cbs spec.subgraphs w hw
+  unfold construct
+  generalize runSubgraphs env cbs spec.subgraphs w = r at this
+  obtain ⟨res, w'⟩ := r
+  cases res with
+  | error err => exact this
+  | ok gs =>
+    simp only at this ⊢
+    cases lookupGraph gs spec.outGraph <;> exact this
+
 end SubgraphLemmas
